@@ -157,266 +157,223 @@ def rule_new_is_literal(ctx):
 
 # ---------------------------------------------------------------- marker table
 
-def byte_test(fn, t):
-    """For a switch on (*bytes)[i] return (index, from_end) else None."""
-    p = op_place(t["discr"])
-    if p is None or not p["p"]:
-        return None
-    last = p["p"][-1]
-    if isinstance(last, dict) and "cindex" in last:
-        return (last["cindex"], last["from_end"])
-    return None
-
-
-def enumerate_paths(fn, start, stops, limit=200):
-    """All acyclic paths from `start` until a block in `stops`; each path = list of (bb, edge_info)."""
-    out = []
-
-    def go(bb, path, seen):
-        if len(out) > limit:
-            raise Inconclusive("too many paths in Atom::parse")
-        if bb in stops and path:
-            out.append(path)
-            return
-        if bb in seen:
-            return
-        t = fn.blocks[bb]["term"]
-        succs = fn.succ[bb]
-        if not succs:
-            return
-        for s in succs:
-            info = None
-            if t["k"] == "switch":
-                vals = [v for v, b_ in t["arms"] if b_ == s]
-                info = (bb, vals if vals else None, [v for v, b_ in t["arms"]])
-            go(s, path + [(bb, s, info)], seen | {bb})
-
-    go(start, [], frozenset())
-    return out
-
-
-def stage_summary(fn, path):
-    """Constraints and effects along a path."""
-    cons = {}   # (idx, from_end) -> ('eq', v) | ('ne', set)
-    minlen = 0
-    maxlen = None
-    eff = {"slice": None, "kind": None, "invert": None, "append_dollar": None}
-    for bb, s, info in path:
-        blk = fn.blocks[bb]
-        t = blk["term"]
-        if info is not None:
-            bt = byte_test(fn, t)
-            if bt is not None:
-                sw, vals, allvals = info
-                old = cons.get(bt)
-                if vals:
-                    if old is not None and ((old[0] == "eq" and not (old[1] & set(vals))) or (old[0] == "ne" and set(vals) <= old[1])):
-                        eff["infeasible"] = True
-                    cons[bt] = ("eq", set(vals) if old is None or old[0] == "ne" else (old[1] & set(vals)))
-                else:
-                    if old is not None and old[0] == "eq" and old[1] <= set(allvals):
-                        eff["infeasible"] = True
-                    elif old is None or old[0] == "ne":
-                        cons[bt] = ("ne", (set(old[1]) if old else set()) | set(allvals))
-            else:
-                e = fn.expr_of_operand(t["discr"])
-                if e[0] == "bin" and e[1] == "Ge" and e[3][0] == "const":
-                    k = e[3][1]
-                    sw, vals, allvals = info
-                    if vals == [0]:
-                        maxlen = k - 1 if maxlen is None else min(maxlen, k - 1)
-                    else:
-                        minlen = max(minlen, k)
-                elif e[0] == "call" and (str(e[3]).endswith("PartialEq::eq") or str(e[3]).endswith("PartialEq::ne")):
-                    other = peel(e[2][1])
-                    sw, vals, allvals = info
-                    if other[0] == "agg" and "AtomKind::" in other[1]:
-                        var = other[1].rsplit("::", 1)[1]
-                        truth = vals != [0]
-                        is_eq = str(e[3]).endswith("eq")
-                        poss = eff.setdefault("kinds", {"Fuzzy", "Prefix", "Substring"})
-                        if is_eq == truth:
-                            poss &= {var}
-                        else:
-                            poss -= {var}
-                        eff["kinds"] = poss
-                        cons[("kind-test",)] = ("eq", {1})
-        # effects in the successor block are attributed when visiting it; here collect effects of bb
-        for st in blk["stmts"]:
-            if st["k"] != "assign" or st["lhs"]["p"]:
-                continue
-            nm = fn.names.get(st["lhs"]["l"])
-            e = fn.expr_of_rvalue(st["rv"])
-            if e[0] == "agg" and "AtomKind::" in e[1]:
-                eff["kind"] = e[1].rsplit("::", 1)[1]
-            elif e[0] == "const" and nm in ("invert", "append_dollar"):
-                eff[nm] = bool(e[1])
-            elif e[0] == "const" and nm is None and fn.b["locals"][st["lhs"]["l"]]["ty"] == "bool":
-                # unnamed bool temp that becomes `invert` (match result)
-                eff.setdefault("_bool", bool(e[1]))
-                eff["_bool"] = bool(e[1])
-        if t["k"] == "call" and callee(t).endswith("::index") and "str" in callee(t):
-            r = fn.expr_of_operand(t["args"][1])
-            if r[0] == "agg" and r[1].endswith("RangeFrom::RangeFrom") and r[2]["start"][0] == "const":
-                eff["slice"] = "[%d..]" % r[2]["start"][1]
-            elif r[0] == "agg" and r[1].endswith("RangeTo::RangeTo"):
-                e2 = r[2]["end"]
-                if e2[0] in ("bin", "checked") and e2[1] == "Sub" and e2[3][0] == "const":
-                    eff["slice"] = "[..len-%d]" % e2[3][1]
-    return cons, minlen, maxlen, eff
-
-
-def known(cons, key):
-    """('eq', byte) / ('ne', set) / None"""
-    c = cons.get(key)
-    if c is None:
-        return None
-    if c[0] == "eq" and len(c[1]) == 1:
-        return ("eq", list(c[1])[0])
-    if c[0] == "eq":
-        return ("in", c[1])
-    return c
-
-
-def is_byte(cons, key, b, minlen, maxlen, need_len):
-    """three-valued: True / False / None"""
-    if maxlen is not None and maxlen < need_len:
-        return False
-    k = known(cons, key)
-    if k is None:
-        return None
-    if k[0] == "eq":
-        return k[1] == b
-    if k[0] == "in":
-        return True if k[1] == {b} else (None if b in k[1] else False)
-    if k[0] == "ne":
-        return False if b in k[1] else None
-    return None
+def marker_grammar(raw):
+    """The documented marker grammar: (needle text before unescaping, kind, negative, append_dollar)."""
+    invert = False
+    s_ = raw
+    if s_.startswith("!"):
+        invert, s_ = True, s_[1:]
+    elif s_.startswith("\\!"):
+        s_ = s_[1:]
+    kind = "Fuzzy"
+    if s_.startswith("^"):
+        kind, s_ = "Prefix", s_[1:]
+    elif s_.startswith("'"):
+        kind, s_ = "Substring", s_[1:]
+    elif s_.startswith("\\^") or s_.startswith("\\'"):
+        s_ = s_[1:]
+    append_dollar = False
+    if s_.endswith("\\$"):
+        append_dollar, s_ = True, s_[:-2]
+    elif s_.endswith("$"):
+        kind = "Postfix" if kind == "Fuzzy" else "Exact"
+        s_ = s_[:-1]
+    if invert and kind == "Fuzzy":
+        kind = "Substring"
+    return s_, kind, invert, append_dollar
 
 
 def rule_marker_table(ctx):
+    """Atom::parse against the documented marker grammar, decided on a complete finite abstraction of its input:
+    the (loop-free) body's decision paths only test bytes at bounded offsets from the front / the back and compare
+    the length with small constants, so every string behaves like one of the strings of length <= front+back+1 over
+    {! ^ ' \\ $ other}.  For each of those the decision table extracted from MIR (conditions as expression trees over
+    `raw`: slice patterns, strip_prefix / starts_with / strip_suffix, sub-slicing) is evaluated and the arguments
+    it hands to new_inner (text, kind, escape_whitespace, append_dollar) and `negative` are compared with the
+    grammar.  Independent of how the three stages are spelled."""
+    import itertools
+    from cfg import decision_paths
+    from absint import Evaluator, Unknown
     facts = ctx.facts
     fn = get_fn(facts, M, PARSE)
-    ab = [bi for bi, t in fn.calls(lambda t: callee(t).endswith("str>::as_bytes"))]
-    ni = [bi for bi, t in fn.calls(lambda t: callee(t) == "pattern::Atom::new_inner")]
-    if len(ab) != 3 or len(ni) != 1:
-        raise Inconclusive("Atom::parse no longer has three byte-matching stages followed by one new_inner call (found %d/%d)" % (len(ab), len(ni)))
-    ab.sort()
-    # stage 3 ends where the `invert && kind == Fuzzy` post-processing starts
-    inv_sw = set()
-    for bi in sorted(fn.live):
-        t = fn.blocks[bi]["term"]
-        if t["k"] == "switch" and bi > ab[2]:
-            e = fn.expr_of_operand(t["discr"])
-            if e[0] == "local" and e[2] == "invert":
-                inv_sw.add(bi)
-    stages = [(ab[0], {ab[1]}), (ab[1], {ab[2]}), (ab[2], inv_sw | {ni[0]})]
-    B = {"!": 33, "\\": 92, "^": 94, "'": 39, "$": 36}
-    total = 0
-    for si, (start, stops) in enumerate(stages):
-        paths = enumerate_paths(fn, fn.blocks[start]["term"]["target"], stops)
-        if not paths:
-            raise Inconclusive("stage %d: no paths" % (si + 1))
-        for path in paths:
-            cons, minlen, maxlen, eff = stage_summary(fn, path)
-            if eff.get("infeasible") or (maxlen is not None and maxlen < minlen):
-                continue  # contradictory tests along this CFG path: not an execution
-            total += 1
-            key = "%s|stage%d|%s" % (PARSE, si + 1, ",".join("%s%s%s" % (k, v[0], sorted(v[1])) for k, v in sorted(cons.items(), key=str)))
-            where = site(fn, path[0][0])
-            if si == 0:
-                b0 = is_byte(cons, (0, False), B["!"], minlen, maxlen, 1)
-                e0 = is_byte(cons, (0, False), B["\\"], minlen, maxlen, 2)
-                e1 = is_byte(cons, (1, False), B["!"], minlen, maxlen, 2)
-                inv = eff.get("invert")
-                if inv is None:
-                    inv = eff.get("_bool")
-                if b0 is True:
-                    want = ("[1..]", True)
-                elif b0 is False and e0 is True and e1 is True:
-                    want = ("[1..]", False)
-                elif b0 is False and (e0 is False or e1 is False):
-                    want = (None, False)
-                else:
-                    ctx.fail_closed("stage 1 path with undetermined bytes: %s" % cons)
-                    continue
-                got = (eff["slice"], inv)
-            elif si == 1:
-                c = is_byte(cons, (0, False), B["^"], minlen, maxlen, 1)
-                q = is_byte(cons, (0, False), B["'"], minlen, maxlen, 1)
-                e0 = is_byte(cons, (0, False), B["\\"], minlen, maxlen, 2)
-                e1c = is_byte(cons, (1, False), B["^"], minlen, maxlen, 2)
-                e1q = is_byte(cons, (1, False), B["'"], minlen, maxlen, 2)
-                if c is True:
-                    want = ("[1..]", "Prefix")
-                elif q is True:
-                    want = ("[1..]", "Substring")
-                elif c is False and q is False and e0 is True and (e1c is True or e1q is True or (known(cons, (1, False)) or ("", ""))[0] == "in"):
-                    want = ("[1..]", "Fuzzy")
-                elif c is False and q is False and (e0 is False or (e1c is False and e1q is False)):
-                    want = (None, "Fuzzy")
-                else:
-                    ctx.fail_closed("stage 2 path with undetermined bytes: %s" % cons)
-                    continue
-                got = (eff["slice"], eff["kind"])
+    paths = decision_paths(fn, limit=200000, with_calls=True)
+    ctx.floor("decision paths of Atom::parse", len(paths), 12)
+    # ---- how deep does the function look?  (bounds the witness domain)
+    # every string/byte-slice expression is `raw` with f bytes cut off the front and b bytes off the back
+    class _Deep(Exception):
+        pass
+
+    def plen(x):
+        x = peel(x)
+        if x[0] == "const" and isinstance(x[1], int):
+            return 1
+        if x[0] == "constx" and isinstance(x[1], str) and x[1].startswith('"'):
+            import ast
+            return len(ast.literal_eval(x[1]))
+        raise _Deep("pattern %s" % show(x)[:40])
+
+    def offsets(e):
+        while e[0] in ("ref", "deref", "cast"):
+            e = e[2] if e[0] == "cast" else e[1]
+        if e[0] == "arg" and e[1] == 1:
+            return 0, 0
+        if e[0] == "subslice":
+            f_, b_ = offsets(e[1])
+            return f_ + e[2], b_ + (e[3] if e[4] else 0)
+        if e[0] == "field" and e[2] == "0":
+            inner = e[1]
+            while inner[0] in ("ref", "deref"):
+                inner = inner[1]
+            if inner[0] == "downcast":
+                c = inner[1]
+                while c[0] in ("ref", "deref"):
+                    c = c[1]
+                if c[0] == "call" and str(c[1]).endswith("::strip_prefix"):
+                    f_, b_ = offsets(c[2][0])
+                    return f_ + plen(c[2][1]), b_
+                if c[0] == "call" and str(c[1]).endswith("::strip_suffix"):
+                    f_, b_ = offsets(c[2][0])
+                    return f_, b_ + plen(c[2][1])
+        if e[0] == "call":
+            short = str(e[1]).rsplit("::", 1)[-1]
+            if short in ("as_bytes", "as_ref", "deref"):
+                return offsets(e[2][0])
+            if short == "index":
+                f_, b_ = offsets(e[2][0])
+                r = e[2][1]
+                if r[0] == "agg":
+                    st, en = r[2].get("start"), r[2].get("end")
+                    if st is not None:
+                        if not (st[0] == "const" and isinstance(st[1], int)):
+                            raise _Deep("range start")
+                        f_ += st[1]
+                    if en is not None:
+                        en = strip_casts(en)
+                        if en[0] in ("bin", "checked") and en[1] == "Sub" and en[3][0] == "const":
+                            b_ += en[3][1]
+                        else:
+                            raise _Deep("range end")
+                    return f_, b_
+        raise _Deep("string expression %s" % show(e)[:60])
+
+    need = {"front": 0, "back": 0, "len": 0}
+
+    def scan(e):
+        if isinstance(e, dict):
+            for v in e.values():
+                scan(v)
+            return
+        if not isinstance(e, tuple) or not e:
+            return
+        if e[0] == "cindex":
+            f_, b_ = offsets(e[1])
+            if e[3]:
+                need["back"] = max(need["back"], b_ + e[2])
             else:
-                d = is_byte(cons, (1, True), B["$"], minlen, maxlen, 1)
-                e = is_byte(cons, (2, True), B["\\"], minlen, maxlen, 2)
-                kinds = eff.get("kinds")
-                if d is True and e is True:
-                    want = ("[..len-2]", True, None)
-                elif d is True and e is False:
-                    poss = kinds if kinds is not None else {"Fuzzy", "Prefix", "Substring"}
-                    outs = set("Postfix" if k == "Fuzzy" else "Exact" for k in poss)
-                    if len(outs) != 1:
-                        want = ("[..len-1]", None, "Postfix for a fuzzy atom / Exact for ^ or ' atoms (this path does not distinguish %s)" % sorted(poss))
+                need["front"] = max(need["front"], f_ + e[2] + 1)
+        elif e[0] == "call":
+            short = str(e[1]).rsplit("::", 1)[-1]
+            if short in ("strip_prefix", "starts_with"):
+                f_, b_ = offsets(e[2][0])
+                need["front"] = max(need["front"], f_ + plen(e[2][1]))
+            elif short in ("strip_suffix", "ends_with"):
+                f_, b_ = offsets(e[2][0])
+                need["back"] = max(need["back"], b_ + plen(e[2][1]))
+        elif e[0] == "bin" and e[1] in ("Ge", "Gt", "Le", "Lt", "Eq", "Ne"):
+            for x, y in ((e[2], e[3]), (e[3], e[2])):
+                x = strip_casts(x)
+                if x[0] == "un" and x[1] == "PtrMetadata" and y[0] == "const":
+                    f_, b_ = offsets(x[2])
+                    need["len"] = max(need["len"], f_ + b_ + y[1])
+        for x in e[1:]:
+            if isinstance(x, (tuple, dict)):
+                scan(x)
+    try:
+        for conds, res, calls in paths:
+            for d, chosen, allv in conds:
+                scan(d)
+    except _Deep as ex:
+        raise Inconclusive("cannot bound how deep Atom::parse inspects its input: %s" % ex)
+    depth_front, depth_back = need["front"], need["back"]
+    maxlen = max(depth_front + depth_back + 1, need["len"] + 1)
+    if maxlen > 8:
+        raise Inconclusive("Atom::parse inspects its input deeper than expected (front %d, back %d): witness domain too large" % (depth_front, depth_back))
+    # ---- decision trie
+    root = {}
+    for pi, (conds, res, calls) in enumerate(paths):
+        node = root
+        for d, chosen, allv in conds:
+            if "cond" not in node:
+                node["cond"] = (d, allv)
+                node["ch"] = {}
+            elif node["cond"][0] != d:
+                raise Inconclusive("decision paths of Atom::parse do not form a decision tree")
+            node = node["ch"].setdefault(chosen, {})
+        node["leaf"] = pi
+    E = Evaluator(facts, M)
+    alphabet = "!^'\\$a"
+    n = bad = 0
+    first_bad = None
+    t_case, t_norm = ("enum", "CaseMatching", "Smart"), ("enum", "Normalization", "Smart")
+    for L in range(0, maxlen + 1):
+        for tup in itertools.product(alphabet, repeat=L):
+            # strings longer than front+back: one representative middle suffices
+            if L > depth_front + depth_back and any(c != "a" for c in tup[depth_front:L - depth_back]):
+                continue
+            raw = "".join(tup)
+            args = {1: ("str", raw), 2: t_case, 3: t_norm}
+            node = root
+            try:
+                while "leaf" not in node:
+                    d, allv = node["cond"]
+                    v = E.ev(d, args)
+                    if isinstance(v, tuple):
+                        raise Unknown("branch on a non-integer")
+                    ch = node["ch"]
+                    if v in ch:
+                        node = ch[v]
+                    elif None in ch and v not in allv:
+                        node = ch[None]
                     else:
-                        want = ("[..len-1]", None, list(outs)[0])
-                elif d is False:
-                    want = (None, None, None)
-                else:
-                    ctx.fail_closed("stage 3 path with undetermined bytes: %s" % cons)
-                    continue
-                ad = eff.get("append_dollar")
-                got = (eff["slice"], True if ad else None, eff["kind"])
-            if got == want:
-                ctx.ok(where, "stage %d, bytes %s ⇒ %s" % (si + 1, {str(k): (v[0], sorted(v[1])) for k, v in cons.items()}, got))
-            else:
-                ctx.violation(key, where, "marker grammar deviates in stage %d (%s): for bytes %s the parser does %s, the documented grammar says %s" % (
-                    si + 1, ["leading !", "leading ^ / '", "trailing $"][si], {str(k): (v[0], sorted(chr(x) if isinstance(x, int) and 32 <= x < 127 else x for x in v[1])) for k, v in cons.items()}, got, want))
-    ctx.floor("decision paths through the three marker stages", total, 12)
-    # negative fuzzy ⇒ substring
-    okn = False
-    for bi, si_, s in fn.stmts(lambda s: s["k"] == "assign" and s["rv"].get("agg") == "adt" and s["rv"].get("variant") == "Substring"):
-        gs = guards_of(fn, bi)
-        inv = any(g[3][0] == "local" and g[3][2] == "invert" and g[2] in ([None], [1]) for g in gs) or any(show(g[3]).startswith("invert") for g in gs)
-        fz = any(g[3][0] == "call" and str(g[3][3]).endswith("PartialEq::eq") and peel(g[3][2][1])[0] == "agg" and peel(g[3][2][1])[1].endswith("Fuzzy") and g[2] in ([None], [1]) for g in gs)
-        if fz and (inv or True):
-            inv2 = [g for g in gs if g[3][0] == "local"]
-            if inv2 or inv:
-                okn = True
-    if okn:
-        ctx.ok(site(fn, 0), "negated fuzzy atoms become substring atoms")
+                        raise Unknown("no decision path for %r at %s" % (raw, show(d)[:60]))
+                conds, res, calls = paths[node["leaf"]]
+                ni = [c for c in calls if c[0] == "pattern::Atom::new_inner"]
+                if len(ni) != 1:
+                    raise Unknown("path does not call new_inner exactly once")
+                a = ni[0][2]
+                text = E.ev(a[0], args)
+                kind = E.ev(a[3], args)
+                esc = E.ev(a[4], args)
+                dollar = E.ev(a[5], args)
+                neg = None
+                if res is not None and res[0] == "upd" and "negative" in res[2]:
+                    neg = E.ev(res[2]["negative"], args)
+                case_ok = E.ev(a[1], args) == t_case and E.ev(a[2], args) == t_norm
+            except Unknown as ex:
+                raise Inconclusive("Atom::parse is not evaluable on %r: %s" % (raw, ex))
+            n += 1
+            got = (text[1] if isinstance(text, tuple) else text, kind[2] if isinstance(kind, tuple) else kind, bool(neg) if neg is not None else None, bool(dollar))
+            want = marker_grammar(raw)
+            if got != want or esc != 1 or not case_ok:
+                bad += 1
+                if first_bad is None:
+                    first_bad = (raw, got, want, esc, case_ok)
+    if bad == 0:
+        ctx.ok(site(fn, 0), "marker grammar: %d witness strings (length <= %d over {! ^ ' \\ $ other}, complete for inspection depth front %d / back %d), %d decision paths: "
+               "needle text, kind, negative, append_dollar, escape_whitespace = true and (case, normalization) all as documented" % (n, maxlen, depth_front, depth_back, len(paths)))
     else:
-        ctx.violation(PARSE + "|negative-fuzzy|1", site(fn, 0), "`!word` is no longer turned into a negated substring atom")
-    # pattern.negative = invert
-    neg = field_assigns(fn, "negative", "pattern::Atom")
-    if neg and all(fn.expr_of_rvalue(s["rv"])[0] == "local" for bi, si_, s in neg if si_ != "term"):
-        ctx.ok(site(fn, neg[0][0], neg[0][1]), "atom.negative := the leading-! flag")
-    else:
-        ctx.violation(PARSE + "|negative-flag|1", site(fn, 0), "atom.negative is not set from the leading-! flag")
-    # new_inner called with escape_whitespace = true and the append_dollar flag
-    t = fn.blocks[ni[0]]["term"]
-    esc = fn.const_of_operand(t["args"][4])
-    ad = fn.expr_of_operand(t["args"][5])
-    if esc == 1 and ad[0] == "local" and ad[2] == "append_dollar":
-        ctx.ok(site(fn, ni[0]), "new_inner(atom, case, normalize, kind, escape_whitespace = true, append_dollar)")
-    else:
-        ctx.violation(PARSE + "|new_inner-args|1", site(fn, ni[0]), "new_inner called with escape_whitespace=%s append_dollar=%s" % (esc, show(ad)))
+        raw, got, want, esc, case_ok = first_bad
+        what = []
+        for nm, g, w in zip(("text", "kind", "negative", "append_dollar"), got, want):
+            if g != w:
+                what.append("%s = %r (documented: %r)" % (nm, g, w))
+        if esc != 1:
+            what.append("escape_whitespace = %s" % esc)
+        if not case_ok:
+            what.append("case/normalization arguments are not the caller's")
+        key = PARSE + "|marker-table|" + ("kind" if got[1] != want[1] else ("text" if got[0] != want[0] else ("negative" if got[2] != want[2] else "flags")))
+        ctx.violation(key, site(fn, 0), "marker grammar deviates on %d of %d witness strings, e.g. parse(%r): %s" % (bad, n, raw, "; ".join(what)))
 
-
-
-# ---------------------------------------------------------------- word splitting
 
 class _Bail(Exception):
     pass
